@@ -18,7 +18,7 @@ NSHARD = 64
 
 def describe(tier):
     b = BOUNDS[tier]
-    return dict(max_block_nodes=b['n'], max_depth=b['depth'], deviations=b['d'], deeper_deviations=dict(nodes=b['n2'], d=b['d2']),
+    return dict(max_block_nodes=b['n'], max_depth=b['depth'], nesting_sub_menu='paragraph + 4 containers, 4..%d nodes, depth 3, deviations <= 1' % (5 if tier == 'quick' else 6), deviations=b['d'], deeper_deviations=dict(nodes=b['n2'], d=b['d2']),
                 leaves=trees.LEAF_NAMES, containers=trees.CONTAINERS, spelling_options=trees.CHOICES,
                 inline=dict(b['inline'], leaves=[l[0] for l in inlines.LEAVES], containers=[c[0] for c in inlines.CONTAINERS],
                             contexts=inlines.CONTEXT_NAMES))
@@ -33,6 +33,9 @@ def jobs(tier):
     for n in range(1, b['n2'] + 1):
         for s in range(NSHARD if n >= 2 else 1):
             js.append(('blocks2', n, b['depth'], b['d2'], s, NSHARD if n >= 2 else 1))
+    for n in range(4, (5 if tier == 'quick' else 6) + 1):
+        for s in range(16):
+            js.append(('nesting', n, 3, 1, s, 16))
     js += inlines.jobs(b['inline'])
     return js
 
@@ -147,6 +150,24 @@ def run_job(job):
             r.outcome('top=' + (blocks[0].kind if blocks else 'empty'))
             if i < 3:
                 r.sample(dict(markdown=trees.to_markdown(blocks, trees.DEFAULTS)[0]), 1)
+    elif kind == 'nesting':
+        # deeper nesting over a sub-menu (paragraph + the four containers): list-in-list / quote-in-list looseness and prefixes
+        _, n, depth, d, shard, nshard = job
+        sps = list(trees.spellings(d))
+        i = -1
+        for f in trees.forests(n, depth, 1, trees.CONTAINERS, empty=False):
+            ctr = [0]
+            blocks = [trees.build(s, ctr) for s in f]
+            if not trees.valid(blocks):
+                continue
+            i += 1
+            if i % nshard != shard:
+                continue
+            r.states += 1
+            for o in sps:
+                if applicable(blocks, o):
+                    check_tree(r, blocks, o)
+            r.outcome('nesting')
     elif kind == 'inline':
         inlines.run_job(r, job, render, normalize_html)
     return r
